@@ -57,6 +57,13 @@ def run_history(ops, rnd):
     """Execute a history on a fresh game; returns the trace record."""
     g = new_game()
     rec = []
+    if rnd.randrange(3) == 0:
+        # library use before the writes: two sections constructed from one caller-owned buffer (their prior contents are equal:
+        # the pattern has period 256); a section owns its bytes, so the writes below must still land in one region only
+        shared = bytearray(g.gff._data)
+        if bytes(g.music._data) == bytes(shared):
+            g.gff = type(g.gff).from_bytes(shared, version=8)
+            g.music = type(g.music).from_bytes(shared, version=8)
     for j, op in enumerate(ops, 1):
         addr, ln = op['addr'], op['len']
         data = bytes(D(j, addr, k) for k in range(ln))
@@ -64,10 +71,11 @@ def run_history(ops, rnd):
             # library use between writes: a section object is replaced by a fresh one holding the same bytes
             n = NAMES[rnd.randrange(len(NAMES))]
             old = getattr(g, n)
+            src = bytes(old._data) if rnd.randrange(2) else bytearray(old._data)
             if n == 'map':
-                new = type(old).from_bytes(bytes(old._data), version=8, gfx=g.gfx)
+                new = type(old).from_bytes(src, version=8, gfx=g.gfx)
             else:
-                new = type(old).from_bytes(bytes(old._data), version=8)
+                new = type(old).from_bytes(src, version=8)
             setattr(g, n, new)
             if n == 'gfx':
                 g.map._gfx = new
